@@ -14,6 +14,7 @@ type c15B struct {
 	ops  []c15Op
 	reg  []int
 	name string
+	ow   float64 // real-call histories: probability that a call is one-way
 }
 
 func (b *c15B) adv(d int64)          { b.ops = append(b.ops, c15Op{K: "adv", D: d}) }
@@ -31,7 +32,7 @@ func (b *c15B) refreshI(l, in []int) {
 	}
 }
 func (b *c15B) call(h int, c uint32, d bool) {
-	b.ops = append(b.ops, c15Op{K: "call", Hash: h, Code: c, Defer: d})
+	b.ops = append(b.ops, c15Op{K: "call", Hash: h, Code: c, Defer: d, OneWay: b.ow > 0 && b.coin(b.ow)})
 }
 func (b *c15B) outs(e, n int, ok bool) {
 	for i := 0; i < n; i++ {
